@@ -212,6 +212,18 @@ def r193(prog, chk):
     an = [(T(s.targets[0].value), T(s.value.generators[0].iter).rsplit(".", 1)[0]) for s in f.node.body if isinstance(s, ast.Assign) and isinstance(s.targets[0], ast.Attribute) and s.targets[0].attr == "anchors" and isinstance(s.value, ast.ListComp)]
     ok = an == [(gt, go), (go, gn), (gn, gt)]
     chk.ob("R19.3", f"{f.short}|anchors are exchanged through the temporary, as copies", ok, where(f), detail=str(an), message=f"{f.short}: anchors are not exchanged symmetrically through the temporary")
+    # the kerning dictionary is replaced as a whole: whatever writes it is dominated by a clear() of it
+    cfg = prog.cfg(f)
+    kcalls = [c for c in A.body_nodes(f.node) if isinstance(c, ast.Call) and isinstance(c.func, ast.Attribute) and T(c.func.value) == f"{font}.kerning"]
+    clears = [c for c in kcalls if c.func.attr == "clear"]
+    kwrites = [c for c in kcalls if c.func.attr in ("update", "__setitem__", "setdefault")]
+    kwrites += [s_ for s_, t_, v_ in subscript_stores(f) if T(t_.value) == f"{font}.kerning"]
+    kwrites += [s_ for s_, t_, v_ in attr_stores(f, "kerning") if T(t_) == f"{font}.kerning"]
+    need(kwrites, f"cannot interpret {f.short}: no write to {font}.kerning")
+    whole = [w for w in kwrites if isinstance(w, ast.Assign) and not isinstance(w.targets[0], ast.Subscript)]
+    okw = all(w in whole or any(cfg.dominates(cfg.node_of(c), cfg.node_of(w)) for c in clears) for w in kwrites)
+    chk.ob("R19.3", f"{f.short}|old kerning pairs are dropped before the remapped ones are written", okw, where(f, kwrites[0]), detail=f"{len(clears)} clear(), {len(kwrites)} write(s)",
+           message=f"{f.short}: the remapped kerning is written over the existing pairs without clearing them: pairs under the old names survive the swap")
     loops = [n for n in f.node.body if isinstance(n, ast.For)]
     need(len(loops) == 3, f"cannot interpret {f.short}: expected the component, kerning and group loops")
     comp, kern, grp = loops
@@ -244,7 +256,7 @@ def r193(prog, chk):
     c = [c for c in calls_named(gi, "swap_glyph_names")]
     ok = len(c) == 1 and any(o == "ne" for o, l, r in facts(prog, gi, c[0]))
     chk.ob("R19.3", f"{gi.short}|identical names are not swapped", ok, where(gi), detail="if name_old != name_new", nontrivial=False, message=f"{gi.short}: a glyph can be swapped with itself (its outline is cleared)")
-    chk.minimum("R19.3", 7)
+    chk.minimum("R19.3", 8)
 
 
 def _guards_raise(prog, fi, c) -> bool:
@@ -420,6 +432,7 @@ MUTANTS = [
       "list(self.default_source_glyphs[glyph_name].unicodes)", "self.default_source_glyphs[glyph_name].unicodes", rule="R19.2"),
     M("components remapped one way", "ufo2ft/instantiator.py", "swap_glyph_names",
       "if c.baseGlyph == name_old:\n    c.baseGlyph = name_new\nelif c.baseGlyph == name_new:\n    c.baseGlyph = name_old", "if c.baseGlyph == name_old:\n    c.baseGlyph = name_new", rule="R19.3"),
+    M("old kerning pairs not dropped (seeded C19d)", "ufo2ft/instantiator.py", "swap_glyph_names", "font.kerning.clear()", "pass", rule="R19.3"),
     M("second kerning side not swapped back", "ufo2ft/instantiator.py", "swap_glyph_names",
       "if second == name_old:\n    second = name_new\nelif second == name_new:\n    second = name_old", "if second == name_old:\n    second = name_new", rule="R19.3"),
     M("code points swapped as well", "ufo2ft/instantiator.py", "swap_glyph_names",
